@@ -64,6 +64,21 @@ type harness struct {
 	seen  map[string]bool
 }
 
+// fail records an oracle failure; failures of the known-finding classes are recorded at most 8 times each
+// (vh.Result keeps 200 failures: they must not crowd out a new class), the rest is only counted.
+var knownClasses = map[string]int{"kind-swap-same-hash-inputs": 0, "expel-reason-not-hashed": 0, "concat-ambiguity-token-expelfacts": 0}
+
+func (h *harness) fail(class, desc string, rp any) {
+	if n, ok := knownClasses[class]; ok {
+		knownClasses[class] = n + 1
+		if n >= 8 {
+			h.res.Dist("oracle_fail:" + class)
+			return
+		}
+	}
+	h.res.Fail(class, desc, rp)
+}
+
 func (h *harness) addCase(kind int, a, b string, detected bool) {
 	key := fmt.Sprintf("%d|%s|%s|%v", kind, a, b, detected)
 	if h.seen[key] {
@@ -97,7 +112,7 @@ func (h *harness) corpus() {
 	fs := isaac.NewSuffrageConfirmBallotFact(p, prev, pr, ex)
 	res.Count("corpus-init-sc", true)
 	if fi.Hash().Equal(fs.Hash()) && fi.IsValid(nil) == nil && fs.IsValid(nil) == nil {
-		res.Fail("kind-swap-same-hash-inputs", "INITBallotFact and SuffrageConfirmBallotFact built from the same values are both valid and share the hash "+fi.Hash().String(),
+		h.fail("kind-swap-same-hash-inputs", "INITBallotFact and SuffrageConfirmBallotFact built from the same values are both valid and share the hash "+fi.Hash().String(),
 			replay{Seed: h.o.Seed, Kind: "corpus/init-vs-suffrage-confirm"})
 	}
 	tok := w.Token()
@@ -107,7 +122,7 @@ func (h *harness) corpus() {
 	fd := isaacoperation.NewSuffrageDisjoinFact(tok, ad, ht)
 	res.Count("corpus-join-disjoin", true)
 	if fj.Hash().Equal(fd.Hash()) && fj.IsValid(nil) == nil && fd.IsValid(nil) == nil {
-		res.Fail("kind-swap-same-hash-inputs", "SuffrageJoinFact and SuffrageDisjoinFact built from the same values are both valid and share the hash "+fj.Hash().String(),
+		h.fail("kind-swap-same-hash-inputs", "SuffrageJoinFact and SuffrageDisjoinFact built from the same values are both valid and share the hash "+fj.Hash().String(),
 			replay{Seed: h.o.Seed, Kind: "corpus/join-vs-disjoin"})
 	}
 	// (b) INIT-stage fact relabelled as ACCEPT-stage fact (keys renamed): must be rejected (stage is hashed and validated)
@@ -152,7 +167,7 @@ func (h *harness) corpus() {
 			res.Count("corpus-concat", true)
 			if st, v, _ := h.validate(f0, gen.RenderJSON(m2), nil); st == "valid" {
 				if hv, ok := v.(isaac.INITBallotFact); ok && hv.Hash().Equal(f0.Hash()) && len(hv.ExpelFacts()) == 0 {
-					res.Fail("concat-ambiguity-token-expelfacts", "INIT ballot fact with the expel fact moved into the token is valid with the same hash (two fields changed)",
+					h.fail("concat-ambiguity-token-expelfacts", "INIT ballot fact with the expel fact moved into the token is valid with the same hash (two fields changed)",
 						replay{Seed: h.o.Seed, Kind: "corpus/concat-ambiguity", Original: string(b), Mutated: string(gen.RenderJSON(m2))})
 				}
 			}
@@ -285,7 +300,7 @@ func main() {
 					if m.Op == "hint-swap" {
 						desc += " -> " + m.New.(string)
 					}
-					res.Fail(class, desc+": still valid", replay{Seed: o.Seed, Kind: d.ob.Kind, Unit: u.At.String(), Field: m.Rel.String(), Op: m.Op, Original: string(d.raw), Mutated: string(mb)})
+					h.fail(class, desc+": still valid", replay{Seed: o.Seed, Kind: d.ob.Kind, Unit: u.At.String(), Field: m.Rel.String(), Op: m.Op, Original: string(d.raw), Mutated: string(mb)})
 				}
 			}
 		}
